@@ -33,7 +33,7 @@ def probes():
 
 def vector(ann):
     from . import render as R
-    return [R.verdict(lambda: isinstance(arr, ann)) for _, arr in probes()]
+    return [R.verdict(lambda: R.matches(arr, ann)) for _, arr in probes()]
 
 
 def main(tier):
